@@ -232,13 +232,13 @@ def checks(tier):
                     continue          # 4-element Euclidean norms: z3 (NRA + sqrt) does not finish within the budget; 3 elements do
                 nm.append(dict(order=p, scale=scale, dim=dim, shape=shape))
     o = {"max_paths": 200000, "div_policy": "assume", "query_timeout_ms": 120000}
-    return [Check("lifecycle", h_lifecycle, life, opts=o, timeout_s=3000), Check("clamping", h_clamp, cl, opts=o, timeout_s=600), Check("normalization", h_normalize, nm, opts=o, timeout_s=1200)]
+    return [Check("lifecycle", h_lifecycle, life, opts=o, timeout_s=3000), Check("clamping", h_clamp, cl, opts=o, timeout_s=600), Check("clamping_fp32", h_clamp, cl, opts=dict(o, fp32=True), timeout_s=600), Check("normalization", h_normalize, nm, opts=o, timeout_s=1200)]
 
 
 BOUNDS = {
     "quick": {"programs": "all programs of 4 operations (5-6 after the fixed prefixes register / register-deregister / register-deregister-register / register-call / register-eval) over "
                           "{register, deregister, train, eval, call, manual(force, ignore_mode), delete+collect} x 4 enable-flag combinations x pre/post",
-              "clamping": "symbolic 2x2 buffer and nested Parameter, 4 bound settings, pre/post", "normalisation": "p in {1, 2, inf}, scale in {1, -2.5}, shapes (3,), (2,2), dims None/0/-1/(0,1)"},
+              "clamping": "symbolic 2x2 buffer and nested Parameter, 4 bound settings, pre/post; decided over the reals and again bit-exactly over IEEE float32 variables", "normalisation": "p in {1, 2, inf}, scale in {1, -2.5}, shapes (3,), (2,2), dims None/0/-1/(0,1)"},
     "thorough": {"programs": "5 free operations"},
 }
 OUTSIDE = ["p-norms with non-integer p", "vectors whose norm lies in (0, 1e-6) (F.normalize's epsilon floor)", "garbage-collection timing is executed under CPython, not modelled",
